@@ -25,6 +25,7 @@ from collections import deque
 from functools import partial
 
 from . import cpu_count, get_context
+from . import common
 from . import util
 from .common import (
     TERM_SIGNAL, human_status, pickle_loads, reset_signals, restart_state,
@@ -361,6 +362,10 @@ class Worker:
                     try:
                         result = (True, prepare_result(fun(*args, **kwargs)))
                     except BaseException:
+                        if common._should_have_exited[0]:
+                            # a termination signal handler asked this
+                            # process to exit: that is not a task failure.
+                            raise
                         result = (False, ExceptionInfo())
                     try:
                         put((READY, (job, i, result, inqW_fd)))
@@ -422,6 +427,9 @@ class Worker:
 
         # Make sure all exiting signals call finally: blocks.
         # This is important for the semaphore to be released.
+        # (a new worker has not been asked to exit yet, whatever the
+        # process it was forked from was doing.)
+        common._should_have_exited[0] = False
         reset_signals(full=self.sigprotection)
 
         # install signal handler for soft timeouts.
